@@ -1,4 +1,4 @@
-import Yuiv.Proofs.C05EngineDD
+import Yuiv.Proofs.C05EngineDeloopDD
 /-
 C05 (engine) — (d): Gaussian elimination of the MODEL preserves `d ∘ d = 0`.
 
@@ -54,5 +54,87 @@ example : ∃ cx', toyCube.eliminate toyOps ⟨[true, false], []⟩ ⟨[true, tr
     cx'.edge? ⟨[false, true], []⟩ ⟨[true, true], [.I]⟩ = none ∧
     cx'.edge? ⟨[false, false], []⟩ ⟨[false, true], []⟩ = some 1 ∧ cx'.verts.length = 3 := by
   refine ⟨_, rfl, by decide, by decide, by decide⟩
+
+/-! ### delooping preserves `d ∘ d = 0` -/
+
+/-- every entry of the complex after `deloop(k, r)`, in one formula: for keys other than the old `k`,
+`d'(a → b) = L(b) · d(π a → π b) · R(a)` where `π` sends the new keys `k·X`, `k·1` to `k`, `L` is the cap glued on
+edges into a new key (`cap(none)` for `k·X`, `cap(Y)` for `k·1`, `1` elsewhere) and `R` the cup glued under edges
+out of it (`cup(X)`, `cup(none)`, `1`); nothing is left at `k`.  (`u = !based`: a circle through the base point has
+only the `X` copy.)  This is the closed lookup formula for the composite
+rename → duplicate → deloop_with → deloop_with. -/
+theorem deloop_entries {E : Type} [Ring E] (ops : EdgeOps E) (cx cx' : Cx E) (k : TKey) (r : Nat) (upd : List TKey)
+    (t : Tng.Tng) (c : Tng.Path) (cap cup : Tng.Dot → E) (hwf : WF ops cx) (ht : cx.tng? k = some t)
+    (hc : t[r]? = some c) (hops : RingDeloopOps ops c cap cup) (h : cx.deloop ops k r = .ok (upd, cx')) (a b : TKey) :
+    ent cx' a b =
+      if a = k ∨ b = k then 0
+      else dlL cap k (!cx.containsBase c) b * ent cx (dlPi k (!cx.containsBase c) a) (dlPi k (!cx.containsBase c) b)
+            * dlR cup k (!cx.containsBase c) a :=
+  deloop_ent ops cx cx' k r upd t c cap cup hwf ht hc hops h a b
+
+/-- **`deloop` of the model preserves `d ∘ d = 0`**: edge labels in a ring, `cap_off(Tgt, c, dot)` = left
+multiplication by `cap dot`, `cap_off(Src, c, dot)` = right multiplication by `cup dot` (for the circle `c` that is
+delooped), and the copies decompose the identity of the delooped vertex:
+`cup(X)·cap(none) + cup(none)·cap(Y) = 1` (`a = ε(a)·X + ε(aY)·1`, statement (2) of `Props/C05Deloop.deloop_iso`),
+resp. `cup(X)·cap(none) = 1` for a circle through the base point (`deloop_iso_based`).  The new differential is the
+old one conjugated by that decomposition, hence squares to zero. -/
+theorem deloop_preserves_dd {E : Type} [Ring E] (ops : EdgeOps E) (cx cx' : Cx E) (k : TKey) (r : Nat)
+    (upd : List TKey) (t : Tng.Tng) (c : Tng.Path) (cap cup : Tng.Dot → E) (hwf : WF ops cx)
+    (ht : cx.tng? k = some t) (hc : t[r]? = some c) (hops : RingDeloopOps ops c cap cup)
+    (hiso : if cx.containsBase c = true then cup .X * cap .none = 1
+            else cup .X * cap .none + cup .none * cap .Y = 1)
+    (hdd : DD cx) (h : cx.deloop ops k r = .ok (upd, cx')) : DD cx' :=
+  deloop_dd ops cx cx' k r upd t c cap cup hwf ht hc hops hiso hdd h
+
+/-- any script of `deloop` and `eliminate` steps keeps a well-formed complex with `d ∘ d = 0` such, provided the
+edge operations are lawful for every circle (with the decomposition of the identity that fits its basedness) -/
+theorem simplification_preserves_wf_and_dd {E : Type} [Ring E] (ops : EdgeOps E) (hops : RingEdgeOps ops)
+    (base : Option Nat)
+    (hdl : ∀ c : Tng.Path, ∃ cap cup : Tng.Dot → E, RingDeloopOps ops c cap cup ∧
+      (if (match base with | some e => c.contains e | none => false) = true then cup .X * cap .none = 1
+       else cup .X * cap .none + cup .none * cap .Y = 1)) :
+    ∀ (steps : List (TKey × Nat ⊕ TKey × TKey)) (cx cx' : Cx E), cx.base = base → WF ops cx → DD cx →
+      foldRes (fun c st => match st with
+        | .inl (k, r) => (match c.deloop ops k r with | .ok (_, c') => .ok c' | .panic => .panic | .err => .err)
+        | .inr (k0, k1) => c.eliminate ops k0 k1) steps cx = .ok cx' →
+      cx'.base = base ∧ WF ops cx' ∧ DD cx' := by
+  intro steps cx cx' hb hwf hdd h
+  refine foldRes_inv (fun c => c.base = base ∧ WF ops c ∧ DD c) _ steps ?_ cx cx' ⟨hb, hwf, hdd⟩ h
+  intro b st b' _ hbI hstep
+  obtain ⟨hb0, hw, hd⟩ := hbI
+  rcases st with ⟨k, r⟩ | ⟨k0, k1⟩
+  · simp only at hstep
+    rcases hdl' : b.deloop ops k r with ⟨upd, c'⟩ | _ | _
+    · simp only [hdl', Res.ok.injEq] at hstep
+      subst hstep
+      obtain ⟨t, c, ht, hc, _, _⟩ := deloop_factors ops b _ k r upd hdl'
+      obtain ⟨cap, cup, ho, hi⟩ := hdl c
+      have hi' : if b.containsBase c = true then cup .X * cap .none = 1
+          else cup .X * cap .none + cup .none * cap .Y = 1 := by
+        unfold Cx.containsBase
+        rw [hb0]
+        exact hi
+      exact ⟨(deloop_base ops b _ k r upd hdl').trans hb0, wf_deloop ops b _ k r upd hw hdl',
+        deloop_dd ops b _ k r upd t c cap cup hw ht hc ho hi' hd hdl'⟩
+    · simp [hdl'] at hstep
+    · simp [hdl'] at hstep
+  · simp only at hstep
+    exact ⟨((eliminate_verts ops b b' k0 k1 hstep).2.2.2.1).trans hb0, wf_eliminate ops b b' k0 k1 hw hstep,
+      eliminate_dd ops hops b b' k0 k1 hw hd hstep⟩
+
+/-- the hypotheses of `deloop_preserves_dd` are satisfiable (ℤ, `cap(none) = cup(X) = 1`, `cap(Y) = cup(none) = 0`)
+and the model's `deloop` runs on a complex with a circle: the vertex splits into `k·X` and `k·1`, the incoming edge
+`3` is kept on the `X` copy and dropped (zero) on the `1` copy -/
+example : (∀ c, RingDeloopOps toyDlOps c (fun d => if d = .Y then 0 else 1) (fun d => if d = .none then 0 else 1)) ∧
+    ((1 : Int) * 1 + 0 * 0 = 1) := by
+  refine ⟨fun c => ⟨?_, ?_, ?_⟩, by decide⟩
+  · intro d f; cases d <;> simp [toyDlOps]
+  · intro d f; cases d <;> simp [toyDlOps]
+  · intro x h; simpa [toyDlOps, toyOps] using h
+
+example : ∃ cx', toyLoop.deloop toyDlOps ⟨[true], []⟩ 0 = .ok ([⟨[true], [.X]⟩, ⟨[true], [.I]⟩], cx') ∧
+    cx'.edge? ⟨[false], []⟩ ⟨[true], [.X]⟩ = some 3 ∧ cx'.edge? ⟨[false], []⟩ ⟨[true], [.I]⟩ = none ∧
+    cx'.verts.length = 3 ∧ WF toyDlOps toyLoop := by
+  refine ⟨_, rfl, by decide, by decide, by decide, ⟨by decide, by decide, by decide, by decide, by decide⟩⟩
 
 end Yuiv.C05.Engine
